@@ -23,8 +23,8 @@ theorem f_O_baseI (s s' : St) (v : Int) (e : Elem) (rest : List Sto) : Inv s →
     all_goals (try simp only [ownerLocked, carry, resetting, ownerFlight, upd_apply, applySto])
     case mwin => exact hmw
     case pt9 => intro _; exact Or.inr ⟨hsh0, htop, by omega, Or.inr (Or.inr rfl)⟩
-    all_goals (first | assumption | grind [thiefLocked, mayBuf, notTrans, thiefFlight, InsShape] | skip)
+    tso_rest
   all_goals (exfalso; cases h; simp only [hpc, ownerLocked, carry, resetting, ownerFlight] at *)
-  all_goals grind [CarryShape, Pu2Shape, PofShape, Po6Shape, Po8Shape, Po9Shape, InsShape, Rc1Shape, Rc2Shape, RcPre, RcShape]
+  all_goals tso_absurd
 
 end MythVerif.WsqTso
